@@ -116,7 +116,7 @@ ListView(t, acc) == IF IsCmp(t) /\ t[2] = "." /\ Len(t[3]) = 2 THEN ListView(t[3
 (*   compounds by arity, then name, then arguments left to right.            *)
 (* Atom names are ordered by their position in AtomsSorted (a spec constant  *)
 (* listing, in character-code order, every atom the generators may use).     *)
-AtomsSorted == << "!", "+", ",", "-", ".", ";", "=", "[]", "a", "a1", "ab", "b", "b1", "b2", "b3", "c", "d", "e",
+AtomsSorted == << "", "!", "+", ",", "-", ".", ";", "=", "B", "[]", "a", "a1", "ab", "b", "b1", "b2", "b3", "c", "d", "e",
                   "f", "foo", "g", "h", "k", "p", "q", "r", "s", "t", "x", "y", "z", "{}" >>
 AtomRank(n) == IF \E i \in 1..Len(AtomsSorted) : AtomsSorted[i] = n THEN IndexOf(AtomsSorted, n)
                ELSE Assert(FALSE, <<"atom not in vocabulary", n>>)
